@@ -45,4 +45,32 @@ SPEC = {
             {"name": "twin", "test": "TestC03", "checks": [600, 8000], "shards": [4, 14], "timeout": [900, 7200]},
         ],
     },
+    "C04": {
+        "level": "exploration",
+        "rule": "sequential part: random programs (2..6 real clients; edits incl. presence-only changes; sync, push-only, late attach, detach; "
+                "with and without snapshot thresholds) whose every request/response pack is recorded by a transport-level recorder; oracle over "
+                "the recorded history and the final stored log: serverSeq = 1..N contiguous, per actor clientSeq = 1..k in log order, response "
+                "checkpoints monotone and <= head, and the concatenation of the change lists delivered to each client (since its last snapshot) "
+                "equals exactly the log rows of the other actors in that range, in order (no loss, duplicate or echo). parallel part (race build): "
+                "goroutine clients hammer one document; same invariants on the final log and deliveries. non-trivial = >=1 pair of concurrent "
+                "changes by different actors and >2 change pulls (seq) / >=2 requests overlapped in time (par); distinct = distinct program hash",
+        "assumptions": ["in-memory database: memdb serialises write transactions, so the doc-push lock is redundant for seq assignment on this backend (MongoDB-only races are out of reach)"],
+        "parts": [
+            {"name": "seq", "test": "TestC04", "checks": [1200, 12000], "shards": [4, 14], "timeout": [900, 7200]},
+        ],
+    },
+    "C06": {
+        "level": "exploration",
+        "rule": "random programs (2..5 clients, full edit alphabet, sync/push-only/late attach/detach/re-attach with a new replica, with and "
+                "without snapshot thresholds, tail edits) with every pack recorded; oracle: (a) at creation time of every local change with "
+                "operations, its lamport exceeds and its version vector dominates the clocks of every change the replica had applied before "
+                "(tracked by the harness from the recorded deliveries and snapshots) and vv[self]==lamport; (b) over the stored log: "
+                "vv[actor]==lamport, (lamport,actor) unique, per-actor lamports increase; (c) every non-snapshot response's minimum vector is "
+                "pointwise <= the vector each currently attached participating client sent in its own latest request (absent = 0). "
+                "non-trivial = >=1 minVV check and >=1 causality check in a case containing a snapshot response, detach, re-attach or late attach",
+        "assumptions": ["presence-only changes carry no clock by design and are skipped", "edits are only generated after Attach"],
+        "parts": [
+            {"name": "history", "test": "TestC06", "checks": [1200, 12000], "shards": [4, 14], "timeout": [900, 7200]},
+        ],
+    },
 }
